@@ -148,7 +148,7 @@ theorem enc_append (k q : Bool) (a b : Bytes) : enc k q (a ++ b) = enc k q a ++ 
 
 /-- **edit_roundtrip.** Replacing the middle of the text by the escaped form of other bytes converts back to the
     bytes with exactly that region replaced. -/
-theorem edit_roundtrip (k q : Bool) (a b b' c : Bytes) :
+theorem edit_roundtrip (k q : Bool) (a b' c : Bytes) :
     dec (enc k q a ++ enc k q b' ++ enc k q c) = some (a ++ b' ++ c) := by
   rw [← enc_append, ← enc_append]; exact roundtrip k q _
 
@@ -175,7 +175,7 @@ example : ∀ c ∈ enc true false [0x09, 0x1b, 0x80], okChar true c = true := o
 example : okChar false 0x09 = false ∧ okChar true 0x09 = true ∧ okChar true 0x1b = false ∧ okChar true 0x80 = false := by decide
 -- `edit_roundtrip` on a concrete three-region text (quote + backslash | newline kept raw | non-ASCII)
 example : dec (enc true true [0x27, 0x5c] ++ enc true true [0x0a] ++ enc true true [0xff]) = some ([0x27, 0x5c] ++ [0x0a] ++ [0xff]) :=
-  edit_roundtrip true true _ [] _ _
+  edit_roundtrip true true _ _ _
 -- the round trip where the escaped text itself contains backslash-n as two characters next to a raw newline
 example : dec (enc true false [0x5c, 0x6e, 0x0a]) = some [0x5c, 0x6e, 0x0a] ∧ enc true false [0x5c, 0x6e, 0x0a] = [0x5c, 0x5c, 0x6e, 0x0a] := by
   decide +kernel
